@@ -70,8 +70,18 @@ func c07Load(sc c07Scenario) (text string, cfg *config.Config, root *dispatch.Ro
 	// A running server builds several trees from one loaded configuration (the dispatcher's, then the API's, again at
 	// every reload): building another one must not disturb the first.
 	c07SecondTree = dispatch.NewRoute(cfg.Route, nil)
+	// amtool (with --alertmanager.url) and every reader of the status API rebuild the tree from the configuration as
+	// the server prints it
+	c07PrintedTree = nil
+	if printed, perr := config.Load(cfg.String()); perr == nil {
+		c07PrintedTree = dispatch.NewRoute(printed.Route, nil)
+	}
 	return text, cfg, root, nil
 }
+
+// c07PrintedTree is the tree built from the printed form of the configuration of the last c07Load call (nil when
+// the printed form does not load: judged by C17).
+var c07PrintedTree *dispatch.Route
 
 // c07SecondTree is the tree built second from the configuration of the last c07Load call.
 var c07SecondTree *dispatch.Route
@@ -327,6 +337,24 @@ func c07ExecRoute(sc c07Scenario) (res pbt.Result) {
 			res.Add(pbt.V("empty-result", "label set %v is routed nowhere\n%s", ls, text))
 			continue
 		}
+		if c07PrintedTree != nil {
+			// receivers and route keys only: the printed form is known to lose a child's empty group_by (finding F11, C17)
+			got3 := c07PrintedTree.Match(toLabelSet(ls))
+			same := len(got3) == len(got)
+			for i := 0; same && i < len(got); i++ {
+				same = got[i].RouteOpts.Receiver == got3[i].RouteOpts.Receiver && got[i].Key() == got3[i].Key()
+			}
+			if !same {
+				var a, b []string
+				for _, g := range got {
+					a = append(a, g.Key()+"→"+g.RouteOpts.Receiver)
+				}
+				for _, g := range got3 {
+					b = append(b, g.Key()+"→"+g.RouteOpts.Receiver)
+				}
+				res.Add(pbt.V("printed-config-routes-differently", "label set %v: the server's tree chooses %v, the tree built from the configuration as the server prints it (what amtool and the status API's readers use) chooses %v\n%s", ls, a, b, text))
+			}
+		}
 		if got2 := c07SecondTree.Match(toLabelSet(ls)); len(got2) != len(got) {
 			res.Add(pbt.V("second-tree-differs", "label set %v: the tree built first from the loaded configuration chooses %d routes, the tree built second %d\n%s", ls, len(got), len(got2), text))
 		} else {
@@ -376,7 +404,7 @@ func c07Paths(rs []ref.RoutedTo) string {
 	return strings.Join(p, " ")
 }
 
-const c07RouteRule = "routing trees rendered as the YAML a user writes (depth <=4 edges, fan-out <=4, <=24 nodes (40 thorough); per non-root node: `matchers` with = != =~ !~ over a 3-name/3-value universe with regexes from a grammar, legacy `match`/`match_re`, or no matchers; `continue`; receiver, group_by (absent | [] | names | ['...']), group_wait, group_interval, repeat_interval, route labels, mute/active interval lists each independently present or absent) inside a minimal configuration loaded by config.Load in the production (fallback) parser mode; one tree in 12 carries `matchers`, `match` or `match_re` on the root itself and must be refused by the loader or, if accepted, still route every label set (also {} and an unrelated label) somewhere; 1-6 label sets per tree, half of them bent towards the matchers on a path. Oracle: an independent interpreter of the generated tree (root always matches; children in order; stop after first matching child without continue; self iff no child matched; options defaulted 30s/5m/4h/no group_by and overridden field by field; labels merged; time-interval lists not inherited) compared with dispatch.NewRoute(...).Match (of the tree built first from the loaded configuration, after a second tree has been built from it; the second tree must choose the same) as ordered lists of tree nodes and their options, and for every node of the tree; Route.Key() compared with the path of canonically sorted matcher lists. Non-trivial: the tree has a grandchild (depth >=2 edges) and at least one label set is routed to a non-root node. Distinct by scenario digest."
+const c07RouteRule = "routing trees rendered as the YAML a user writes (depth <=4 edges, fan-out <=4, <=24 nodes (40 thorough); per non-root node: `matchers` with = != =~ !~ over a 3-name/3-value universe with regexes from a grammar, legacy `match`/`match_re`, or no matchers; `continue`; receiver, group_by (absent | [] | names | ['...']), group_wait, group_interval, repeat_interval, route labels, mute/active interval lists each independently present or absent) inside a minimal configuration loaded by config.Load in the production (fallback) parser mode; one tree in 12 carries `matchers`, `match` or `match_re` on the root itself and must be refused by the loader or, if accepted, still route every label set (also {} and an unrelated label) somewhere; 1-6 label sets per tree, half of them bent towards the matchers on a path. Oracle: an independent interpreter of the generated tree (root always matches; children in order; stop after first matching child without continue; self iff no child matched; options defaulted 30s/5m/4h/no group_by and overridden field by field; labels merged; time-interval lists not inherited) compared with dispatch.NewRoute(...).Match (of the tree built first from the loaded configuration, after a second tree has been built from it; the second tree must choose the same, and so must the tree built from the configuration's printed form, by receiver and route key) as ordered lists of tree nodes and their options, and for every node of the tree; Route.Key() compared with the path of canonically sorted matcher lists. Non-trivial: the tree has a grandchild (depth >=2 edges) and at least one label set is routed to a non-root node. Distinct by scenario digest."
 
 func TestC07Route(t *testing.T) {
 	pbt.Run(t, pbt.Spec[c07Scenario]{
